@@ -1,6 +1,7 @@
 package statesync
 
 import (
+	"bytes"
 	"context"
 	"fmt"
 	"strings"
@@ -184,6 +185,12 @@ func (s *lightClientStateProvider) State(ctx context.Context, height uint64) (sm
 	if err != nil {
 		return sm.State{}, fmt.Errorf("unable to fetch consensus parameters for height %v: %w",
 			nextLightBlock.Height, err)
+	}
+	// The RPC server chooses which height it answers for: make sure these are the parameters
+	// committed to by the verified header of the height we asked for.
+	if cH, tH := types.HashConsensusParams(result.ConsensusParams), currentLightBlock.ConsensusHash; !bytes.Equal(cH, tH) {
+		return sm.State{}, fmt.Errorf("consensus params hash %X for height %v does not match trusted hash %X",
+			cH, currentLightBlock.Height, tH)
 	}
 	state.ConsensusParams = result.ConsensusParams
 	state.LastHeightConsensusParamsChanged = currentLightBlock.Height
